@@ -214,6 +214,9 @@ for _i in (0, 1):
     H_OPS += [("drift", _i, -2.0 ** -6), ("drift", _i, 2.0 ** -7), ("vol", _i, 0.0), ("vol", _i, 0.25), ("vol", _i, 0.5), ("shock", _i, 0.5),
               ("shock", _i, 1.5)]
 H_OPS += [("corr", 0, 1, 0.5), ("corr", 1, 0, -0.25), ("uncorr", 0, 1), ("uncorr", 1, 0), ("shock", 2, 2.0)]
+# two changes at the same time with no read of any price in between (two shocks of one step; a parameter change, then a shock)
+H_OPS += [("both", ("shock", 0, 0.5), ("shock", 1, 1.5)), ("both", ("drift", 1, -2.0 ** -6), ("shock", 1, 0.5)),
+          ("both", ("vol", 0, 0.5), ("shock", 2, 2.0)), ("both", ("shock", 1, 0.5), ("shock", 1, 1.5))]
 
 
 class HWorld:
@@ -249,6 +252,19 @@ class HWorld:
         return (list(self.ref_drifts), list(self.ref_vols), dict(self.ref_corr))
 
     def apply(self, op):
+        if op[0] == "both":
+            for sub in op[1:]:
+                if self._apply1(sub) is False:
+                    return False
+            self.wit.inc("hist_two_changes_without_a_read_in_between")
+            self.check(op)
+            return True
+        if self._apply1(op) is False:
+            return False
+        self.check(op)
+        return True
+
+    def _apply1(self, op):
         f, t = self.f, self.t
         k = op[0]
         if k == "adv":
@@ -280,7 +296,6 @@ class HWorld:
             self.ms[op[1]].change_fundamental_price(op[2])
             self.hist[op[1]][t] = self.hist[op[1]][t] * op[2]
             self.wit.inc("hist_shock")
-        self.check(op)
         return True
 
     def check(self, op):
